@@ -32,6 +32,10 @@ func formatCommentCharacter(comment string, char rune) string {
 	// Sharp-style comment
 	switch bs[0] {
 	case '#':
+		// A single sharp becomes a double slash, a single slash does not start a comment
+		if char == '/' && (len(bs) < 2 || bs[1] != '#') {
+			return "//" + string(bs[1:])
+		}
 		for i := range bs {
 			if bs[i] != '#' {
 				break
